@@ -507,23 +507,25 @@ pub fn libfuzzer(ctx: &Ctx, target: &str, total_runs: u64, max_len: usize, procs
                 .arg(format!("-artifact_prefix={}/", arts.display()))
                 .arg(&corpus)
                 .stdout(std::process::Stdio::null())
-                .stderr(std::process::Stdio::piped())
+                // stderr goes to a file: with pipes the workers that are waited for later block as soon as their
+                // pipe is full, i.e. the processes would run one after the other
+                .stderr(std::fs::File::create(dir.join("stderr.log")).map(std::process::Stdio::from).unwrap_or_else(|_| std::process::Stdio::null()))
                 .spawn();
-            (child, arts)
+            (child, arts, dir.join("stderr.log"))
         })
         .collect();
     let mut runs = 0u64;
     let mut crash = None;
-    for (child, arts) in handles {
-        let Ok(child) = child else { continue };
-        if let Ok(out) = child.wait_with_output() {
-            let err = String::from_utf8_lossy(&out.stderr);
+    for (child, arts, log) in handles {
+        let Ok(mut child) = child else { continue };
+        if let Ok(status) = child.wait() {
+            let err = std::fs::read(&log).map(|b| String::from_utf8_lossy(&b).into_owned()).unwrap_or_default();
             for line in err.lines() {
                 if let Some(v) = line.strip_prefix("stat::number_of_executed_units:") {
                     runs += v.trim().parse::<u64>().unwrap_or(0);
                 }
             }
-            if !out.status.success() && crash.is_none() {
+            if !status.success() && crash.is_none() {
                 if let Ok(rd) = std::fs::read_dir(&arts) {
                     for e in rd.flatten() {
                         if let Ok(bytes) = std::fs::read(e.path()) {
